@@ -240,6 +240,12 @@ LocalRefineClause(c, rough, P, rows) ==
     IF Len(rows) # Len(rough) THEN "refine_count_changed"
     ELSE IF \E k \in 1..Len(rows) : rows[k][1] # rough[k][1] \/ rows[k][2] # rough[k][2] \/ rows[k][5] # rough[k][5]
          THEN "refine_indices_changed"
+    ELSE IF P % 2 = 0 THEN
+         \* even patch sizes: the patch is sampled between cells, conformance to the cell-based Offset does not apply;
+         \* the property's own clause does: every point finite and within half a patch of its grid cell
+         FirstOf({IF rows[k][6] # "val" THEN "refine_offset_mismatch"
+                  ELSE IF 2 * Abs(rows[k][3] - rough[k][3]) > P * Q + 16 \/ 2 * Abs(rows[k][4] - rough[k][4]) > P * Q + 16 THEN "refine_bound"
+                  ELSE "ok" : k \in 1..Len(rows)} \ {"ok"})
     ELSE FirstOf({PointClause(MapOf(c, rough[k][1], rough[k][2]), <<rough[k][3] \div Q, rough[k][4] \div Q>>, P,
                               rows[k][3], rows[k][4], rows[k][6]) : k \in 1..Len(rows)} \ {"ok"})
 
